@@ -3,7 +3,7 @@ from ..rules import flow, delivery
 from .common import declare
 
 RULES = ['PROPAGATE', 'FLAT-RETURN', 'BOUND-PLUMB', 'NOTIFY-ON-FREE', 'EMIT-CONVERT', 'SYNC-TRANSPORT', 'AWAITABLE-RESULT', 'SINGLE-CONSUMER', 'FIFO-END']
-FLOORS = {'PROPAGATE': 40, 'FLAT-RETURN': 30, 'BOUND-PLUMB': 8, 'NOTIFY-ON-FREE': 1, 'EMIT-CONVERT': 3, 'SYNC-TRANSPORT': 3, 'SINGLE-CONSUMER': 1, 'FIFO-END': 1}
+FLOORS = {'PROPAGATE': 40, 'FLAT-RETURN': 30, 'BOUND-PLUMB': 8, 'NOTIFY-ON-FREE': 1, 'EMIT-CONVERT': 3, 'SYNC-TRANSPORT': 3, 'SINGLE-CONSUMER': 1, 'FIFO-END': 1, 'AWAITABLE-RESULT': 1}
 
 META = {
     'level': "Static value-flow analysis of every _emit/emit call site (path enumeration with an abstract shape lattice): the "
